@@ -25,7 +25,7 @@ Theorem C36_concat_accepts_unconditional :
      ((exists r, concatenate ds = Ok r) <->
         same_on descr ds /\ same_on sres ds /\ chain (isort ds)) /\
      (forall e, concatenate ds = Err e -> e = ValueError)).
-Proof. exact (conj concat_nil (conj concat_single concat_accepts_unconditional)). Qed.
+Proof. exact concat_accepts_unconditional_all. Qed.
 Print Assumptions C36_concat_accepts_unconditional.
 
 (* isort is THE stable sort by indices.start *)
@@ -33,7 +33,7 @@ Theorem C36_isort_is_stable_sort : forall ds,
   Permutation (isort ds) ds /\
   StronglySorted (fun a b => istart a <= istart b) (isort ds) /\
   forall k, filter (fun x => istart x =? k) (isort ds) = filter (fun x => istart x =? k) ds.
-Proof. exact (fun ds => conj (isort_perm ds) (conj (isort_sorted ds) (fun k => isort_stable k ds))). Qed.
+Proof. exact isort_is_stable_sort. Qed.
 Print Assumptions C36_isort_is_stable_sort.
 
 Example C36_concat_nonvacuous :
@@ -206,7 +206,7 @@ Theorem C36_last_cover_spec : forall ds s,
      exists l1 d l2, ds = l1 ++ d :: l2 /\ covers d s = true /\ v = row_of d s /\
                      forall d', In d' l2 -> covers d' s = false) /\
   (last_cover ds s = None <-> forall d, In d ds -> covers d s = false).
-Proof. exact (fun ds s => conj covers_spec (conj (last_cover_some ds s) (last_cover_none ds s))). Qed.
+Proof. exact last_cover_spec_all. Qed.
 Print Assumptions C36_last_cover_spec.
 
 (* _num_rows counts all consumed rows; with pairwise disjoint seq_num ranges every consumed
